@@ -187,6 +187,10 @@ def run_one(spec, hist):
     """Run a single case with timeout + hygiene.  Always returns a result dict."""
     snap = _snapshot_globals()
     t0 = time.time()
+    # the REPL variable '_' (set in builtins by sys.displayhook whenever a part is compiled in 'single'
+    # mode) must not travel from one case to the next inside a worker
+    import builtins
+    builtins.__dict__.pop('_', None)
     try:
         signal.alarm(CASE_TIMEOUT)
         try:
